@@ -61,7 +61,7 @@ LONG_TEMPLATES = {
 def gen_case(rng, spec):
     from rv.gen import grammars as GG
 
-    if rng.random() < (0.015 if spec.get("tier") == "quick" else 0.004):
+    if rng.random() < (0.025 if spec.get("tier") == "quick" else 0.004):
         # size threshold: one long context fed token by token (interpreter's default recursion budget per call)
         name = rng.choice(sorted(LONG_TEMPLATES))
         N = 300 if spec.get("tier") == "quick" else rng.choice([600, 1100])
